@@ -17,8 +17,9 @@ def run_tls_exchange(handler, request: bytes, middleware=None, upload=None, clie
     import nauyaca.server.protocol as sp
     import nauyaca.server.tls_protocol as tp
     # undo harness monkey-patching if this process imported the stub helpers
-    sp.asyncio = asyncio
-    tp.asyncio = asyncio
+    from vf import release
+    release(sp, asyncio)
+    release(tp, asyncio)
     tp.SSL = SSL
     pyo = importlib.import_module("nauyaca.security.pyopenssl_tls")
     tp.get_peer_certificate_from_connection = pyo.get_peer_certificate_from_connection
